@@ -187,9 +187,9 @@ a `datetime` object the name `datetime`
 (`datetime.datetime(...)`: a method call on `datetime`). -/
 inductive AttrKind where
   | plain
-  /-- a union tag: printed through `_generate_python_value` as `[ns.]Class.tag` (`ty`: the union, or alias of a
-  union, the schema field is declared with) -/
-  | tagRef (ty : Ty) (tag : Name)
+  /-- a union tag: `repr` prints `TagRef(Union('ns.U', [UnionField(...), ...]), 'tag')`, which evaluates the names
+  `TagRef`, `Union`, `UnionField` -/
+  | tagRef
   /-- printed as `datetime.datetime(...)`; the module then starts with `import datetime` (like `bb` / `bv` a
   runtime name, not tracked) -/
   | timestamp
@@ -514,7 +514,7 @@ def defaultStmts (cur : Name) (d : DataType) : List Stmt :=
 def attrRefs (cur : Name) : List (Name × AttrKind) → List Ref
   | [] => []
   | (_, .plain) :: r => attrRefs cur r
-  | (_, .tagRef t tag) :: r => tagRef cur t tag ++ attrRefs cur r
+  | (_, .tagRef) :: r => here "TagRef" :: here "Union" :: here "UnionField" :: attrRefs cur r
   | (_, .timestamp) :: r => attrRefs cur r
 
 /-- `_generate_routes` -/
@@ -824,11 +824,8 @@ def aliasWF (api : Api) (ns : Namespace) (earlier : List Alias) (a : Alias) : Bo
 
 def routeWF (api : Api) (ns : Namespace) (r : Route) : Bool :=
   tyOK api ns r.arg && tyOK api ns r.result && tyOK api ns r.error
-  -- a union-tag attribute names an available void tag of a visible union
-  && r.attrs.all (fun (_, k) => match k with
-      | .tagRef t tag => tagOKTy api (api.nAliases + 1) t tag && tyOK api ns t
-          && aliasEndsInUser api (api.nAliases + 1) t
-      | _ => true)
+  -- no union-tag attribute (its printed form is not an expression the module can evaluate)
+  && r.attrs.all (fun (_, k) => k != .tagRef)
 
 def nsWF (api : Api) (ns : Namespace) : Bool :=
   allWithEarlier (typeWF api ns) [] ns.types
